@@ -15,8 +15,8 @@ Open Scope Z_scope.
 (* --- every function once ------------------------------------------------------------------ *)
 (* With details on, the function blocks have distinct keys; a stats key has a block iff
    stripzeros is off or its total hits are non-zero; and every block is show_func of its own
-   key's timings (so the numbers of one function never appear under another); `cleared` is the
-   state of linecache at that point of the report (see C10_ipython_cell_rows_refuted). *)
+   key's timings (so the numbers of one function never appear under another, and a block does
+   not depend on what was reported before it). *)
 Theorem C10_every_function_once :
   forall (F : formatter) (E : env) (o : options) (st : stats),
     NoDup (map fst st) -> o_details o = true ->
@@ -25,8 +25,7 @@ Theorem C10_every_function_once :
     /\ (forall k tm, In (k, tm) st ->
           (In k (map b_key blocks) <-> (o_stripzeros o = false \/ total_hits tm <> 0)))
     /\ (forall b, In b blocks ->
-          exists tm cleared, In (b_key b, tm) st
-                             /\ show_func F E (o_stripzeros o) cleared (b_key b) tm = Some b).
+          exists tm, In (b_key b, tm) st /\ show_func F E (o_stripzeros o) (b_key b) tm = Some b).
 Proof. exact every_function_once. Qed.
 
 (* skip-zero hides exactly the functions with no hits (hit counts are never negative) *)
@@ -43,9 +42,9 @@ Proof. exact skip_zero_exact. Qed.
    recorded for that line, or four empty cells when nothing was recorded.  The block has one row
    per line of the source block (for a missing file: per fake empty line). *)
 Theorem C10_every_line_once_on_its_row :
-  forall (F : formatter) (E : env) (strip cleared : bool) fn start name (tm : list timing) (b : block),
-    show_func F E strip cleared (fn, start, name) tm = Some b ->
-    let sub := block_lines (E fn start) cleared start tm in
+  forall (F : formatter) (E : env) (strip : bool) fn start name (tm : list timing) (b : block),
+    show_func F E strip (fn, start, name) tm = Some b ->
+    let sub := block_lines (E fn start) start tm in
     length (b_rows b) = length sub
     /\ forall i r, nth_error (b_rows b) i = Some r ->
          r_lineno r = start + Z.of_nat i
@@ -60,10 +59,10 @@ Proof. exact row_i_is_line_start_plus_i. Qed.
    lines of a code object always lie inside what inspect.getblock returns is a fact about the
    environment; the tie checks it on every generated source shape.) *)
 Theorem C10_every_line_once :
-  forall (F : formatter) (E : env) (strip cleared : bool) fn start name (tm : list timing) (b : block),
-    show_func F E strip cleared (fn, start, name) tm = Some b ->
+  forall (F : formatter) (E : env) (strip : bool) fn start name (tm : list timing) (b : block),
+    show_func F E strip (fn, start, name) tm = Some b ->
     NoDup (map t_line tm) ->
-    let n := Z.of_nat (length (block_lines (E fn start) cleared start tm)) in
+    let n := Z.of_nat (length (block_lines (E fn start) start tm)) in
     forall t, In t tm ->
       (start <= t_line t < start + n ->
          exists i r, nth_error (b_rows b) i = Some r
@@ -76,35 +75,38 @@ Proof. exact every_line_once. Qed.
 
 (* missing file: the fake block covers every line of valid stats (lines at or after the first) *)
 Theorem C10_missing_file_keeps_every_line :
-  forall (cleared : bool) start (tm : list timing),
+  forall start (tm : list timing),
     (forall t, In t tm -> start <= t_line t) ->
     forall t, In t tm ->
-      start <= t_line t < start + Z.of_nat (length (block_lines Missing cleared start tm)).
+      start <= t_line t < start + Z.of_nat (length (block_lines Missing start tm)).
 Proof. exact missing_file_covers_all_lines. Qed.
 
-(* The full statement "every recorded line of every function is on a row" is FALSE of the
-   faithful model once the environment has IPython cells: show_func calls
-   linecache.clearcache() for every function whose file is on disk, which also discards the
-   sources of cell-defined functions (they exist only in linecache.cache).  A cell function
-   reported after such a function gets its header and no rows at all. *)
-Theorem C10_ipython_cell_rows_refuted :
-  exists (st : stats) (k : key) (tm : list timing) (E : env) (o : options) (sub : list string),
-    NoDup (map fst st) /\ In (k, tm) st /\ NoDup (map t_line tm) /\ tm <> []
-    /\ E (fst (fst k)) (snd (fst k)) = Cell sub
-    /\ (forall t, In t tm -> snd (fst k) <= t_line t < snd (fst k) + Z.of_nat (length sub))
-    /\ o_details o = true
-    /\ (forall t, In t tm ->
-          exists b, In b (rp_blocks (show_text_py 1 None E o [(k, tm)])) /\
-                    In (t_line t) (map r_lineno (b_rows b)))
-    /\ (exists b, In b (rp_blocks (show_text_py 1 None E o st)) /\ b_key b = k /\ b_rows b = []).
-Proof. exact ipython_cell_rows_witness. Qed.
+(* A function defined in an IPython cell (no file; the source lives only in linecache.cache):
+   wherever its block stands in the report it has one row per line of the cell's block and every
+   recorded line in that range is on exactly one row with its own numbers.  (The former
+   C10_ipython_cell_rows_refuted: until /repo commit 6c987c9 show_func called
+   linecache.clearcache() for every on-disk function, and a cell function printed after one got
+   a header and no rows.) *)
+Theorem C10_ipython_cell_rows_shown :
+  forall (F : formatter) (E : env) (o : options) (st : stats) (b : block) fn start name sub,
+    o_details o = true ->
+    In b (rp_blocks (show_text F E o st)) -> b_key b = (fn, start, name) -> E fn start = Cell sub ->
+    exists tm, In ((fn, start, name), tm) st
+      /\ length (b_rows b) = length sub
+      /\ (NoDup (map t_line tm) ->
+          forall t, In t tm -> start <= t_line t < start + Z.of_nat (length sub) ->
+            exists i r, nth_error (b_rows b) i = Some r /\ i = Z.to_nat (t_line t - start)
+                        /\ r_lineno r = t_line t /\ r_cells r = f_cells F (total_time tm) t
+                        /\ forall j r', nth_error (b_rows b) j = Some r' -> r_lineno r' = t_line t -> j = i).
+Proof. exact cell_rows_shown. Qed.
 
-(* in general: once linecache was cleared a cell function's block has no rows *)
-Theorem C10_ipython_cell_after_clear_has_no_rows :
-  forall (F : formatter) (E : env) (strip : bool) fn start name (tm : list timing) (b : block) sub,
-    E fn start = Cell sub ->
-    show_func F E strip true (fn, start, name) tm = Some b -> b_rows b = [].
-Proof. exact cell_after_clear_has_no_rows. Qed.
+(* the concrete two-function report: the cell function after the on-disk function keeps its rows *)
+Theorem C10_ipython_cell_example :
+  map (fun b => (b_key b, map (fun r => (r_lineno r, c_hits (r_cells r), r_text r)) (b_rows b)))
+      (rp_blocks (show_text_py 1 None ip_env (mkOpts false false false true) ip_st))
+  = [(("/src/a.py", 1, "f"), [(1, "", "def f(x):"); (2, "1", "    return x")]);
+     ((ip_cell, 1, "c0"), [(1, "", "def c0(y):"); (2, "1", "    y += 1"); (3, "1", "    return y")])].
+Proof. exact ipython_cell_example. Qed.
 
 (* without C12's uniqueness: of several timings for one line only the LAST is displayed *)
 Theorem C10_duplicate_lineno_last_wins :
@@ -113,7 +115,7 @@ Theorem C10_duplicate_lineno_last_wins :
      last_for (pre ++ t :: post) (t_line t) = Some t)
   /\ (let F := py_formatter 1 None in
       option_map (fun b => map r_cells (b_rows b))
-                 (show_func F (fun _ _ => Missing) false false ("f.py", 1, "f") [(1, 5, 10); (1, 7, 30)])
+                 (show_func F (fun _ _ => Missing) false ("f.py", 1, "f") [(1, 5, 10); (1, 7, 30)])
       = Some [("7", " 30.0", "  4.3", " 75.0")]).
 Proof. exact (conj duplicate_lineno_last_wins duplicate_example). Qed.
 
